@@ -2,6 +2,7 @@ package main
 
 import (
 	"fmt"
+	"math/big"
 	"os"
 	"sort"
 	"strings"
@@ -23,7 +24,7 @@ func newHarnessRun(e *Engine, name string, fn *ssa.Function, cfg Config) *Harnes
 }
 
 func newState(base *Heap) *State {
-	return &State{heap: newHeap(base), base: base, nameCnt: map[string]int{}, sites: map[string]bool{}, id: atomic.AddInt64(&stateCounter, 1)}
+	return &State{lits: map[int64]bool{}, model: map[string]*big.Int{}, heap: newHeap(base), base: base, nameCnt: map[string]int{}, sites: map[string]bool{}, id: atomic.AddInt64(&stateCounter, 1)}
 }
 
 // ---------- package initialisation (concrete, into the base heap)
@@ -176,7 +177,26 @@ func (e *Engine) explore(name string, fn *ssa.Function, cfg Config) *HarnessRun 
 	if nw < 1 {
 		nw = 1
 	}
-	deadline := time.Now().Add(cfg.Timeout * 40)
+	deadline := time.Now().Add(cfg.Wall)
+	stopTick := make(chan struct{})
+	if e.verbose > 0 {
+		go func() {
+			tk := time.NewTicker(5 * time.Second)
+			defer tk.Stop()
+			for {
+				select {
+				case <-stopTick:
+					return
+				case <-tk.C:
+					hr.mu.Lock()
+					fmt.Fprintf(os.Stderr, "  [%s] paths=%d queue=%d active=%d steps=%d solver: q=%d sat=%d unsat=%d unk=%d fresh=%d %.1fs\n", name, hr.nPaths, len(hr.work), hr.active, hr.Steps,
+						atomic.LoadInt64(&gStats.Queries), atomic.LoadInt64(&gStats.Sat), atomic.LoadInt64(&gStats.Unsat), atomic.LoadInt64(&gStats.Unknown), atomic.LoadInt64(&gStats.Fresh), float64(atomic.LoadInt64(&gStats.Nanos))/1e9)
+					hr.mu.Unlock()
+				}
+			}
+		}()
+	}
+	defer close(stopTick)
 	for i := 0; i < nw; i++ {
 		wg.Add(1)
 		go func() {
